@@ -16,6 +16,8 @@ import (
 	"hash/fnv"
 	"math"
 	"os"
+	"path/filepath"
+	"runtime/debug"
 	"sort"
 	"strconv"
 	"sync"
@@ -146,6 +148,22 @@ func trunc(js []byte) json.RawMessage {
 	return json.RawMessage(q)
 }
 
+// guard runs one check; a panic on the calling goroutine (code under test called directly) becomes a failure of
+// that case, so that it is shrunk and saved like any other (a panic on another goroutine still kills the process
+// and is attributed through the write-ahead file).
+func guard[C any](check func(C) Result, c C) (r Result) {
+	defer func() {
+		if p := recover(); p != nil {
+			st := string(debug.Stack())
+			if len(st) > 1800 {
+				st = st[:1800]
+			}
+			r = Result{Fail: fmt.Sprintf("panic while running the case: %v\n%s", p, st)}
+		}
+	}()
+	return check(c)
+}
+
 // Record accounts one executed case.
 func Record(test string, js []byte, r *Result) {
 	st.mu.Lock()
@@ -223,7 +241,7 @@ func Run[C any](t *testing.T, gen func(*rapid.T) C, check func(C) Result) {
 		if err := json.Unmarshal(rf.Case, &c); err != nil {
 			t.Fatalf("replay: bad case: %v", err)
 		}
-		r := check(c)
+		r := guard(check, c)
 		Record(name, rf.Case, &r)
 		if r.Fail != "" && r.Known == "" {
 			t.Fatalf("REPLAY-FAIL %s", r.Fail)
@@ -231,6 +249,9 @@ func Run[C any](t *testing.T, gen func(*rapid.T) C, check func(C) Result) {
 		if r.Fail != "" {
 			t.Logf("replay: fails only inside known finding %s: %s", r.Known, r.Fail)
 		}
+		return
+	}
+	if !Regressions(t, check) {
 		return
 	}
 	wal := envPath("VERIF_WAL")
@@ -246,7 +267,7 @@ func Run[C any](t *testing.T, gen func(*rapid.T) C, check func(C) Result) {
 			rt.Fatalf("case not serialisable: %v", err)
 		}
 		writeFile(wal, name, js, "")
-		r := check(c)
+		r := guard(check, c)
 		Record(name, js, &r)
 		if r.Fail != "" && r.Known == "" {
 			writeFile(last, name, js, r.Fail)
@@ -274,7 +295,7 @@ func Fuzz[C any](f *testing.F, gen func(*rapid.T) C, check func(C) Result) {
 		if wal != "" {
 			writeFile(fmt.Sprintf("%s.%d", wal, os.Getpid()), name, js, "")
 		}
-		r := check(c)
+		r := guard(check, c)
 		r.Labels = append(r.Labels, "native-fuzz")
 		Record(name, js, &r)
 		if r.Fail != "" && r.Known == "" {
@@ -284,13 +305,56 @@ func Fuzz[C any](f *testing.F, gen func(*rapid.T) C, check func(C) Result) {
 	}))
 }
 
+// Regressions re-runs, before any search, the saved cases of earlier findings kept for this test under
+// $VERIF_REGRESSIONS/<property>/ (the shrunk failing case of every repaired defect and of every seeded change that
+// needed a strengthened check): a plain regression check, no generator involved.  Shard 0 only.
+// Returns false when one of them fails (the test has then been failed and the replay file written).
+func Regressions[C any](t *testing.T, check func(C) Result) bool {
+	dir := envPath("VERIF_REGRESSIONS")
+	if dir == "" || envPath("VERIF_REPLAY") != "" || envPath("VERIF_FUZZ") != "" {
+		return true
+	}
+	if sh, _ := Shard(); sh != 0 {
+		return true
+	}
+	files, _ := filepath.Glob(filepath.Join(dir, propertyID, "*.json"))
+	sort.Strings(files)
+	name := t.Name()
+	for _, f := range files {
+		b, err := os.ReadFile(f)
+		if err != nil {
+			continue
+		}
+		var rf replayFile
+		if json.Unmarshal(b, &rf) != nil || rf.Test != name {
+			continue
+		}
+		var c C
+		if err := json.Unmarshal(rf.Case, &c); err != nil {
+			t.Errorf("regression case %s does not fit this test's case type any more: %v", f, err)
+			return false
+		}
+		writeFile(envPath("VERIF_WAL"), name, rf.Case, "")
+		r := guard(check, c)
+		r.Labels = append(r.Labels, "regression-case")
+		Record(name, rf.Case, &r)
+		if r.Fail != "" && r.Known == "" {
+			msg := fmt.Sprintf("regression case %s fails again: %s", filepath.Base(f), r.Fail)
+			writeFile(envPath("VERIF_LASTFAIL"), name, rf.Case, msg)
+			t.Errorf("%s", msg)
+			return false
+		}
+	}
+	return true
+}
+
 // Direct accounts a case that did not come from rapid (exhaustive enumerations).
 // It returns true when the case passed (or failed only inside a known finding).
 func Direct[C any](t *testing.T, c C, check func(C) Result) bool {
 	name := t.Name()
 	js, _ := json.Marshal(c)
 	walDirect(name, js) // a crash inside check (a panic in a cell goroutine cannot be recovered) is then attributable
-	r := check(c)
+	r := guard(check, c)
 	Record(name, js, &r)
 	if r.Fail != "" && r.Known == "" {
 		writeFile(envPath("VERIF_LASTFAIL"), name, js, r.Fail)
@@ -355,7 +419,7 @@ func ReplayDirect[C any](t *testing.T, check func(C) Result) bool {
 	if err := json.Unmarshal(rf.Case, &c); err != nil {
 		t.Fatalf("replay: bad case: %v", err)
 	}
-	r := check(c)
+	r := guard(check, c)
 	Record(t.Name(), rf.Case, &r)
 	if r.Fail != "" && r.Known == "" {
 		t.Fatalf("REPLAY-FAIL %s", r.Fail)
